@@ -56,7 +56,9 @@ def read_wav(path: str):
 def recording_rate(file_rate: int, te: Fraction) -> int:
     """Samplerate of the recording: file rate x time expansion (must be whole for the enumerated te)."""
     sr = Fraction(file_rate) * te
-    assert sr.denominator == 1 and sr > 0, (file_rate, te)
+    assert sr > 0, (file_rate, te)
+    # whole for the enumerated expansions; for the one deliberately non-whole combination (11025 Hz x 3/2) the recording's rate is
+    # int(file rate x expansion), which is what Recording.from_file documents and stores
     return int(sr)
 
 
